@@ -12,6 +12,9 @@ WORDS = ['a', 'b1', 'King Arthur', 'X', '.', 'x', '0', '1', '12', 'B', 'é', 'ß
          ' nbsp in'[1:-3], 'é', '%s', '%(x)s', '{0}', 'a​b']
 TABLE_EXTRA = ['a,b', '"q"', 'say "hi"', 'comma, space', "it's"]
 CXT_EXTRA = TABLE_EXTRA + ['a|b', '#1', 'p#q', '|', 'X|', 'c#']
+LIT_EXTRA = ["'", "both ' and \"", '\\', '\\n', "\\'", '\\x41', '\x00\x01\x1f\x7f', '\x80\x9f\xa0\xad\xff', '\u2028\u2029',
+             '\ud7ff\ue000\ufffe', '\U0001f600', '\U000e0001', '\U0010ffff', 'a\u0300', '\u200b', '\ufeff', '\u0378', '\u0660', '{', '}', '(', ')', ':', '[',
+             "'''", '"""', '\\"', "\\\\'"]
 CSV_EXTRA = CXT_EXTRA + [' lead', 'trail ', 'line\nbreak', 'cr\rinside', 'crlf\r\nin', '"', '""', ',', ',,', '\ttab', 'a\n', '\n', ' ']
 
 
@@ -260,9 +263,9 @@ def run(run):
                 break
             bools = [tuple(bool((r >> j) & 1) for j in range(m)) for r in rows]
             for frmat, pool in (('table', WORDS + TABLE_EXTRA), ('cxt', WORDS + CXT_EXTRA), ('csv', WORDS + CSV_EXTRA),
-                                ('wiki-table', WORDS + TABLE_EXTRA), ('python-literal', WORDS + CSV_EXTRA)):
+                                ('wiki-table', WORDS + TABLE_EXTRA), ('python-literal', WORDS + CSV_EXTRA + LIT_EXTRA)):
                 pool = [w for w in pool if representable(w, frmat)]
-                for _ in range(draws if frmat != 'python-literal' else 1):
+                for _ in range(draws):
                     labels = rng.sample(pool, n + m)
                     objs, props = labels[:n], labels[n:]
                     args = '%s %s %s' % (hexl(objs), hexl(props), bstr(bools))
@@ -357,8 +360,30 @@ def run(run):
                             back, mload = ctx, None
                             strict = strict_wiki(text)
                         else:
+                            def tup(t):
+                                return '+'.join(map(str, t)) if t else 'e'
+                            lat_s = 'none'
+                            if rng.random() < .5:
+                                lat = ctx.lattice._tolist()
+                                lat_s = ';'.join('|'.join(tup(x) for x in e) for e in lat) if lat else '_'
                             text = ctx.tostring('python-literal')
+                            if ("'lattice'" in text) != (lat_s != 'none'):
+                                run.fail('python-literal: lattice section present iff the lattice was computed', text, lat_s, reqs, extra)
+                            printable = sorted({ord(c) for l in labels for c in l if ord(c) >= 0x80 and c.isprintable()})
+                            rows_s = ';'.join(tup([j for j, b in enumerate(r) if b]) for r in bools) if bools else '_'
+                            reqs = ['lit dump %s %s %s %s %s' % (','.join(map(str, printable)) or '-', hexl(objs), hexl(props), rows_s, lat_s),
+                                    'lit load ' + hexs(text + '\n')]
+                            mtext, mback = drv.ask_many(reqs)
+                            if hexs(text + '\n') != mtext:
+                                run.fail('python-literal text', text + '\n', unhex(mtext), reqs, extra)
+                            want_back = 'ok %s %s %s %s' % (hexl(objs), hexl(props), rows_s, lat_s)
+                            if mback != want_back:
+                                run.fail('Lean python-literal reader on the emitted text', mback, want_back, reqs, dict(extra, text=text))
                             back, mload, strict = Context.fromstring(text, 'python-literal'), None, None
+                            if (lat_s != 'none') != ('lattice' in back.__dict__):
+                                run.fail('python-literal: the stored lattice is loaded iff it was written', None, None, reqs, extra)
+                            if lat_s != 'none' and back.lattice._tolist() != ctx.lattice._tolist():
+                                run.fail('python-literal: reloaded lattice', back.lattice._tolist(), ctx.lattice._tolist(), reqs, extra)
                         if back != ctx or not (back == ctx):
                             run.fail('fromstring(tostring(%s)) != context' % frmat, [back.objects, back.properties, back.bools], [objs, props, bools], reqs, dict(extra, text=text))
                         if mload is not None and parse_triple(mload) != (objs, props, bools):
